@@ -166,6 +166,8 @@ PROBES = [
     "join_form_aliased_rel", "apply_navigates_other_rel_to_aliased_target", "op_distinct",
     "op_only", "style_dj_manager", "style_dj_custom_manager", "style_dj_related_manager", "join_form_rel", "join_form_outer_rel", "join_form_target_on",
     "join_form_target", "join_form_select_related", "host_func_used", "host_func_executed",
+    "host_limit", "apply_refused_on_limited_base", "apply_accepted_on_limited_base",
+    "style_sa_core_fromjoin",
     "gc_between_ops",
     "chain_depth_ge_3",
 ]
@@ -245,6 +247,7 @@ def execute(plan, pristine, deep=False):
                           parent)
         q.snap0 = b.snapshot(style, obj)
         q.have = set(pool[parent].have) if parent is not None else set()
+        q.limit = pool[parent].limit if parent is not None else None
         pool[qid] = q
         applied_after[qid] = 0
         return q
@@ -294,7 +297,7 @@ def execute(plan, pristine, deep=False):
                 log.append(("skip", i, k))
                 continue
             style, root = base.style, base.root
-            if k in ("where", "join", "order", "annotate", "distinct", "only"):
+            if k in ("where", "join", "order", "annotate", "distinct", "only", "limit"):
                 obj = b.step(style, root, base.obj, op)
                 preds, order, joins, ann = list(base.preds), base.order, list(base.joins), base.annotated
                 if k == "where":
@@ -306,6 +309,8 @@ def execute(plan, pristine, deep=False):
                     order = op["o"]
                 elif k == "annotate":
                     ann = True
+                elif k == "limit":
+                    probes["host_limit"] += 1
                 else:
                     probes["op_" + k] += 1
                 nstyle = "dj_qs" if style in MANAGER_STYLES else style
@@ -314,6 +319,8 @@ def execute(plan, pristine, deep=False):
                 if k == "join" and op["j"]["form"] not in ("joinedload", "core_join",
                                                            "aliased_rel"):
                     nq.have.add((op["j"]["owner"], op["j"]["rel"]))
+                if k == "limit":
+                    nq.limit = (op["n"], op.get("offset", 0))
                 check_intact(base, op, "after-host-op")
                 log.append((k, i, base.qid))
                 continue
@@ -383,13 +390,24 @@ def execute(plan, pristine, deep=False):
                 try:
                     obj = b.apply(style, base.obj, text)
                 except Exception as e:
+                    if base.limit is not None:
+                        # a sliced base: refusing (as legacy Query and Django do) is not a
+                        # wrong result; the base must still be intact
+                        probes["apply_refused_on_limited_base"] += 1
+                        check_intact(base, op, "after-refused-apply")
+                        log.append(("apply-refused", i, base.qid, type(e).__name__))
+                        continue
                     viol("apply-raised", op, text=text, style=style, error=repr(e)[:300],
                          base_joins=base.joins, needed=need)
                     log.append(("apply-raised", i, base.qid))
                     continue
+                if base.limit is not None:
+                    probes["apply_accepted_on_limited_base"] += 1
                 check_intact(base, op, "after-apply")
                 nstyle = "dj_qs" if style in MANAGER_STYLES else style
-                q = add(i, nstyle, root, obj, base.preds + [{"kind": "odata", "t": t}],
+                q = add(i, nstyle, root, obj,
+                        base.preds + [{"kind": "odata", "t": t,
+                                       "after_limit": base.limit is not None}],
                         base.order, base.joins, base.annotated, base.chain + [op],
                         base.depth + 1, base.qid)
                 q.have.update(need)
@@ -446,7 +464,11 @@ def execute(plan, pristine, deep=False):
                 want_rows = app.model_rows(q, db)
                 want = [r["id"] for r in want_rows]
                 last_apply = next((o for o in reversed(q.chain) if o["op"] == "apply"), None)
+                late = q.limit is not None and any(p.get("after_limit") for p in q.preds)
                 ctx = {"style": q.style, "query": q.qid, "chain_len": len(q.chain),
+                       "limited_base": late,
+                       "filter_then_limit": ([r["id"] for r in app.model_rows(q, db, True)]
+                                             if late else None),
                        "base_joins": q.joins,
                        "needed": [list(n) for n in T.needed_rels(last_apply["t"], q.root)] if last_apply else [],
                        "text": T.render(last_apply["t"]) if last_apply else None}
@@ -568,11 +590,13 @@ class _G:
         self.paths = set(paths)   # to-one paths (tuples) already navigated or joined
         self.applied = applied
         self.aliased = set()      # root-level relationships joined through a host alias
+        self.limited = False      # the host sliced the query: only apply / run from here
 
     def derive(self, i, **kw):
         g = _G(i, "dj_qs" if self.style in MANAGER_STYLES else self.style, self.root,
                self.depth, self.joins, self.order, self.annotated, self.paths, self.applied)
         g.aliased = set(self.aliased)
+        g.limited = self.limited
         g.distinct = getattr(self, "distinct", False)
         for k, v in kw.items():
             setattr(g, k, v)
@@ -600,7 +624,8 @@ def gen_plan(seed, run, finding_shapes=True):
     gs = []
     n_ops = rng.randint(5, 14)
     # a history works on one or two backends
-    styles = rng.sample(["sa_select", "sa_select_aliased", "sa_legacy", "sa_core", "sa_core_cols", "dj_qs",
+    styles = rng.sample(["sa_select", "sa_select_aliased", "sa_legacy", "sa_core", "sa_core_cols",
+                         "sa_core_fromjoin", "dj_qs",
                          "dj_manager", "dj_custom_manager", "dj_related_manager"],
                         rng.choice([1, 1, 2]))
     ctr = [0]
@@ -621,6 +646,8 @@ def gen_plan(seed, run, finding_shapes=True):
                 op["root"] = root = "Post"
             owner = {"Post": "Author", "Comment": "Post"}[root]
             op["owner_id"] = rng.choice(plan["data"][owner])["id"]
+        elif style == "sa_core_fromjoin":
+            op["root"] = root = "Author"
         ops.append(op)
         g = _G(i, style, root)
         gs.append(g)
@@ -636,12 +663,20 @@ def gen_plan(seed, run, finding_shapes=True):
         # prefer recent queries but keep older ones in play
         g = gs[-1] if rng.random() < 0.5 else rng.choice(gs)
         dj = g.style.startswith("dj")
-        core = g.style in ("sa_core", "sa_core_cols")
+        core = g.style in ("sa_core", "sa_core_cols", "sa_core_fromjoin")
+        if g.limited and r < 0.42:
+            r = 0.5       # a sliced query: apply, apply_fail or run only
+        if g.order and not g.limited and rng.random() < 0.12:
+            i = nid()
+            ops.append({"i": i, "op": "limit", "base": g.i, "n": rng.randint(1, 3),
+                        "offset": rng.choice([0, 0, 1])})
+            gs.append(g.derive(i, limited=True))
+            continue
         if r < 0.18:
             i = nid()
             ops.append({"i": i, "op": "where", "base": g.i, "cond": _gen_cond(rng, g.root)})
             gs.append(g.derive(i))
-        elif r < 0.30 and core and T.TO_ONE[g.root] and not g.joins:
+        elif r < 0.30 and core and g.style != "sa_core_fromjoin" and T.TO_ONE[g.root] and not g.joins:
             rel = rng.choice(sorted(T.TO_ONE[g.root]))
             i = nid()
             j = {"owner": g.root, "rel": rel, "via": [], "form": "core_join"}
@@ -706,7 +741,8 @@ def gen_plan(seed, run, finding_shapes=True):
                 j = {"owner": owner, "rel": rel, "via": via, "form": form}
             ops.append({"i": i, "op": "join", "base": g.i, "j": j})
             gs.append(g.derive(i, joins=g.joins + [j], paths=g.paths | {path}))
-        elif r < 0.32 and not getattr(g, "distinct", False) and not g.annotated:
+        elif r < 0.32 and not getattr(g, "distinct", False) and not g.annotated \
+                and g.style != "sa_core_fromjoin":
             i = nid()
             if dj and rng.random() < 0.5:
                 fld = sorted(f for f in T.SCALARS[g.root] if f != "id")[0]
@@ -736,8 +772,8 @@ def gen_plan(seed, run, finding_shapes=True):
                 # model: what a per-(model, text) cache inside the library needs
                 same = [x for x in gs if x.root == last_template[0] and x.i != last_template[2].i
                         and x.style.startswith("dj") == last_template[2].style.startswith("dj")
-                        and (x.style in ("sa_core", "sa_core_cols")) ==
-                        (last_template[2].style in ("sa_core", "sa_core_cols"))]
+                        and (x.style in ("sa_core", "sa_core_cols", "sa_core_fromjoin")) ==
+                        (last_template[2].style in ("sa_core", "sa_core_cols", "sa_core_fromjoin"))]
                 cand = last_template[1]
                 same = [x for x in same
                         if not any(pth[0] in x.aliased for pth in T.nav_paths(cand))]
@@ -758,7 +794,7 @@ def gen_plan(seed, run, finding_shapes=True):
                 # same base query, so that the compiled-statement cache can hit
                 g = last_template[2]
                 dj = g.style.startswith("dj")
-                core = g.style in ("sa_core", "sa_core_cols")
+                core = g.style in ("sa_core", "sa_core_cols", "sa_core_fromjoin")
             if last_template and last_template[0] == g.root and rng.random() < 0.6 and \
                     (not core or not T.needed_rels(last_template[1], g.root)):
                 t = T.vary_literals(rng, last_template[1])
@@ -855,7 +891,8 @@ def shrink_candidates(plan):
             yield p
     # 2. splice out a middle op (where/join/order/annotate/apply): children re-based
     for op in ops:
-        if op["op"] in ("where", "join", "order", "annotate", "apply", "distinct", "only"):
+        if op["op"] in ("where", "join", "order", "annotate", "apply", "distinct", "only",
+                        "limit"):
             p = copy.deepcopy(plan)
             p["ops"] = [o for o in p["ops"] if o["i"] != op["i"]]
             for o in p["ops"]:
@@ -919,7 +956,23 @@ def _m_double_join(entry, v, plan):
     return False
 
 
-KNOWN_MATCHERS = {"sa-double-join-by-target": _m_double_join}
+def _m_select_limit(entry, v, plan):
+    """A 2.0-style select (ORM or Core) that already carries LIMIT/OFFSET: the shorthand's
+    WHERE goes underneath the limit, so rows outside the base's page come back."""
+    if v.get("kind") != "wrong-rows" or not v.get("limited_base"):
+        return False
+    if v.get("style") not in ("sa_select", "sa_select_aliased", "sa_core", "sa_core_cols",
+                              "sa_core_fromjoin"):
+        return False
+    ftl = v.get("filter_then_limit")
+    got = v.get("got")
+    if ftl is None or got is None:
+        return False
+    return (got == ftl) if v.get("ordered") else (sorted(got) == sorted(ftl))
+
+
+KNOWN_MATCHERS = {"sa-double-join-by-target": _m_double_join,
+                  "sa-select-limit-filter-under-limit": _m_select_limit}
 
 
 def is_known(v, plan):
@@ -1187,13 +1240,14 @@ SYS_DATA = {
                 {"id": 3, "body": "nice", "post_id": 1, "writer_id": 1, "reviewer_id": None},
                 {"id": 4, "body": "meh", "post_id": 2, "writer_id": 3, "reviewer_id": 1}],
 }
-SYS_STYLES = ["sa_select", "sa_select_aliased", "sa_legacy", "sa_core", "sa_core_cols", "dj_qs",
+SYS_STYLES = ["sa_select", "sa_select_aliased", "sa_legacy", "sa_core", "sa_core_cols",
+              "sa_core_fromjoin", "dj_qs",
               "dj_manager",
               "dj_custom_manager", "dj_related_manager"]
 SYS_SHAPES = ["plain", "where", "order", "join_rel", "join_outer", "join_target_on",
               "join_joinedload", "join_other", "join_aliased_other", "join_two_used_first",
               "join_two_used_last",
-              "annotated", "distinct", "chained"]
+              "annotated", "distinct", "chained", "limited"]
 SYS_FILTERS = ["scalar", "fn", "nav1", "nav_post", "nav2", "any", "all", "any0", "any2"]
 
 
@@ -1236,7 +1290,9 @@ def _sys_template(kind, root, variant):
 
 def _sys_history(style, root, shape, fkind):
     dj = style.startswith("dj")
-    core = style in ("sa_core", "sa_core_cols")
+    core = style in ("sa_core", "sa_core_cols", "sa_core_fromjoin")
+    if style == "sa_core_fromjoin" and root != "Author":
+        return None
     t = _sys_template(fkind, root, 0)
     t2 = _sys_template(fkind, root, 1)
     if t is None:
@@ -1314,11 +1370,17 @@ def _sys_history(style, root, shape, fkind):
                 return None      # the known finding's shape; the random tier reports it
             j = {"owner": root, "rel": rel, "via": [], "form": form}
         base = add({"op": "join", "base": base, "j": j})
+    elif shape == "limited":
+        f = {"Post": "title", "Comment": "body", "Author": "name"}[root]
+        base = add({"op": "order", "base": base, "o": {"f": f, "dir": "asc"}})
+        base = add({"op": "limit", "base": base, "n": 2, "offset": 0})
     elif shape == "annotated":
         if not dj or root != "Post":
             return None
         base = add({"op": "annotate", "base": base})
     elif shape == "distinct":
+        if style == "sa_core_fromjoin":
+            return None      # DISTINCT over (author columns, post title): multiplicity
         base = add({"op": "distinct", "base": base})
     elif shape == "chained":
         f = {"Post": "rating", "Comment": "post_id", "Author": "id"}[root]
